@@ -7,6 +7,9 @@ mod c02;
 mod c03;
 mod c04;
 mod c14;
+mod c15;
+mod c17;
+mod rwalk;
 mod c20;
 mod cval;
 mod proj;
@@ -100,6 +103,9 @@ fn main() {
         "C09" => cval::run_c09(&ctx),
         "C10" => cval::run_c10(&ctx),
         "C14" => c14::run(&ctx),
+        "C15" => c15::run_c15(&ctx),
+        "C16" => c15::run_c16(&ctx),
+        "C17" => c17::run(&ctx),
         "C20" => c20::run(&ctx),
         _ => {
             eprintln!("unknown property id {id}");
